@@ -59,7 +59,7 @@ CONSTANTS
   NF = %d
   Modes = {0, 1}
   Full = %s
-INVARIANTS CountMatches RootsMatchNaive ProofsMatchNaive MemberSound SupplementSound HistorySound CarrierSound KindsDisjoint
+INVARIANTS CountMatches RootsMatchNaive ProofsMatchNaive MemberSound SupplementSound HistorySound CarrierSound KindsDisjoint ReuseSound
 CHECK_DEADLOCK FALSE
 `, maxH, maxAdd, maxLeaves, minInit, maxInit, nfModel, map[bool]string{true: "TRUE", false: "FALSE"}[full])
 }
@@ -287,7 +287,7 @@ func finish(c *vlib.Ctx, st *stats, traces int64) {
 	for _, n := range st.asks {
 		evals += n
 	}
-	for _, d := range []string{"shim", "vte", "v2txn", "supp", "supp-used", "supp-placed", "supp-used-placed", "supp-form", "supp-form-placed", "supp-post-require", "inblock", "inblock-block"} {
+	for _, d := range []string{"shim", "vte", "v2txn", "supp", "supp-used", "supp-placed", "supp-used-placed", "supp-form", "supp-form-placed", "supp-post-require", "inblock", "inblock-block", "reuse", "reuse-block"} {
 		if st.asks[d] == 0 {
 			c.Infra("vacuity: door %s never used", d)
 		}
@@ -346,6 +346,16 @@ func finish(c *vlib.Ctx, st *stats, traces int64) {
 	}
 	if v := st.verdicts["supp-post-require:expiring-contract"]; v == nil || v[0] == 0 || st.postGenuine == 0 {
 		c.Infra("vacuity: no (genuine) v1 contract presented in a supplement after RequireHeight (%v, genuine %d)", v, st.postGenuine)
+	}
+	// second use in the block: after an honest revision both verdicts, alone and in the whole block; after a spend
+	// the doors must have been asked
+	for _, r := range []string{"v2filecontract-revision-after-revision", "v2filecontract-resolution-after-revision", "filecontract-revision-after-revision"} {
+		need = append(need, "reuse:"+r, "reuse-block:"+r)
+	}
+	for _, r := range []string{"siacoin-spend-after-spend", "siafund-spend-after-spend"} {
+		if v := st.verdicts["reuse:"+r]; v == nil || v[0] == 0 {
+			c.Infra("vacuity: second use %s never presented", r)
+		}
 	}
 	// REINTERPRET: every applicable pair of kinds checked at the leaf constructors, the reinterpreted elements
 	// presented through every door of their kind (the signed ones with a verdict)
